@@ -21,6 +21,9 @@ func init() {
 			a.cipherBuffers("K.cipher-buffers")
 			a.c14Sender()
 			a.signatureLayout("K.signature")
+			a.macKeyByteWipes("W.mac-wipe")
+			a.c16Whitespace()
+			a.heartbeatOrder("V.heartbeat-order")
 			// messages the specification's sender produces are accepted: the stored peer values that later messages are checked
 			// against (the peer's DH value of the exchange, the peer's counter) move only with verified/authentic messages
 			a.theirDHWriters()
